@@ -185,6 +185,18 @@ def _apply_section(sec, head, it, data, s0, e0, what, edits, drop, tags_box, ret
             edits.append(Edit(lp["expr"][0], lp["expr"][0], w[3].rstrip(":") + ": ", "ins:ghost-iter", tl))
         if body.strip():
             edits.append(Edit(lp["body_start"], lp["body_start"], "\n" + body + "\n", "ins:loop", tl))
+    elif kw == "desugar_for":
+        # X9: `for PAT in EXPR BODY` written as the `while let` loop the language defines it to be (this Verus cannot prove
+        # its built-in for-loop invariant for iterators without a dedicated vstd model)
+        k = int(w[1].rstrip(":"))
+        if k >= len(it["loops"]) or it["loops"][k]["kind"] != "for":
+            raise GenError(f"{what}: desugar_for {k}: no such for loop")
+        lp = it["loops"][k]
+        pat = data[lp["pat"][0]:lp["pat"][1]].decode()
+        ex = data[lp["expr"][0]:lp["expr"][1]].decode()
+        hdr = f"{{ let mut __it{k} = core::iter::IntoIterator::into_iter({ex}); while let Some({pat}) = __it{k}.next() "
+        edits.append(Edit(lp["span"][0], lp["body_start"], hdr, "X9:desugar-for", tl))
+        edits.append(Edit(lp["span"][1], lp["span"][1], " }", "X9:desugar-for", tl))
     elif kw == "loopbody":
         k = int(w[1].rstrip(":"))
         if k >= len(it["loops"]):
